@@ -145,6 +145,31 @@ def layout_event(darsia, shape, tid):
     return e
 
 
+def layout_events_payload(darsia, shape, comps, tid):
+    """The layout helpers on an array with a trailing component axis (colour / vector data, as the vtk export passes it):
+    every component is laid out like a scalar array of the same spatial shape, and the component axis is kept in order."""
+    n = len(shape)
+    base = np.arange(int(np.prod(shape))).reshape(shape)
+    a = np.stack([base + 0 * k for k in range(comps)], axis=-1)     # same spatial tags in every component ...
+    marks = np.arange(comps)                                          # ... plus a component mark checked separately
+    r = safe(darsia.matrixToCartesianIndexing, (a * comps + marks).copy(), n)
+    out = []
+    for k in range(comps):
+        e = {"op": "layout", "tid": f"{tid}:c{k}", "n": n, "shape": list(shape)}
+        if r is None or np.asarray(r).ndim != n + 1 or np.asarray(r).shape[-1] != comps:
+            e.update(m2c=[], m2cok=0, cshape=[], back="ERR")
+        else:
+            comp = np.asarray(r)[..., k]
+            ok = bool(np.all(comp % comps == k))             # component k still holds component k
+            e["m2c"] = tags(comp // comps) if ok else tags(np.full(comp.shape, -1))
+            e["m2cok"] = 1
+            e["cshape"] = list(comp.shape)
+            b = safe(darsia.cartesianToMatrixIndexing, np.asarray(r).copy())
+            e["back"] = "ERR" if b is None else ("same" if np.asarray(b).shape == a.shape and np.array_equal(b, a * comps + marks) else "different")
+        out.append(e)
+    return out
+
+
 def run(ck, replay=None):
     ck.sany("MC_Axes", "Trace_Axes")
     r = ck.model_check("MC_Axes", "MC_Axes.cfg", workers=2)
@@ -159,6 +184,8 @@ def run(ck, replay=None):
     for s in shapes:
         sid = "x".join(map(str, s))
         events.append(layout_event(darsia, s, f"layout:{sid}"))
+        if len(s) == 2:       # (1-D and 3-D inverses are open findings; the 2-D pair is the one in use)
+            events += layout_events_payload(darsia, s, 3, f"layoutc:{sid}")
         if len(s) >= 2:
             events += slice_events(darsia, rng, s, tables[len(s)], f"axes:{sid}")
     # observed executions: every distinct interpret_indexing call made while the repository's own unit tests run
